@@ -105,3 +105,10 @@ ENTRY["monitor_sigs"] = ENTRY["monitor_sigs"] + _cb.MONITOR_SIGS
 ENTRY["trusted_base"] = ENTRY["trusted_base"] + _cb.TRUSTED_BASE
 ENTRY["assumptions"] = [a.replace("the beacon node and core/bcast (the recorder stands at the input of Broadcaster.Broadcast)", "the beacon node") for a in ENTRY["assumptions"]] + _cb.ASSUMPTIONS
 ENTRY["level_text"] = ENTRY["level_text"] + " " + _cb.LEVEL_TEXT
+
+# ... and the admission layer of consensus (C05: real Consensus.handle): what the members agree on is a hash; that the data
+# filed under it hashes to it is what makes "agree on the hash" mean "store and sign the same object".
+from vlib.props_C05 import ENTRY as _E05w
+ENTRY["streams"] = ENTRY["streams"] + [dict(_E05w["streams"][0], seeds_quick=1)]
+ENTRY["monitor_sigs"] = ENTRY["monitor_sigs"] + ["qbftwire:value_hash_mismatch_accepted", "qbftwire:tampered_accepted",
+                                                 "qbftwire:unsigned_justification_accepted", "qbftwire:cross_duty_accepted"]
